@@ -100,9 +100,12 @@ def item_tok(it):
         return "%s %s" % (k, kw_tok(it[1]))
     if k == "tfdata":
         # ss2tf(A, B, C, D, dt) calls the StateSpace constructor before converting
-        return "ss2tf4" if len(it) > 1 and it[1] == "ss2tf4" else "tfdata"
+        base = "ss2tf4" if len(it) > 1 and it[1] == "ss2tf4" else "tfdata"
+        # factory form with keywords: ss2tf(A, B, C, D, dt, name=, inputs=, outputs=) / tf(num, den, dt, ...)
+        # names the result like tf(<the data-route result>, name=, inputs=, outputs=)
+        return base + " tf " + kw_tok(it[2]) if len(it) > 2 and it[2] is not None else base
     if k == "ssdata":
-        return k
+        return k + " ss " + kw_tok(it[2]) if len(it) > 2 and it[2] is not None else k
     if k == "cfg":
         return "cfg " + it[1]
     if k == "op":
@@ -364,19 +367,21 @@ def run_prog0(prog):
         elif k == "tfdata":
             x = st.pop()
             via = it[1] if len(it) > 1 else "tfdata"
+            fkw = kwargs_of(it[2]) if len(it) > 2 and it[2] is not None else {}
             if via == "ss2tf4" and isinstance(x, ct.StateSpace):
-                st.append(ct.ss2tf(x.A, x.B, x.C, x.D, x.dt))      # ss2tf(A, B, C, D, dt)
+                st.append(ct.ss2tf(x.A, x.B, x.C, x.D, x.dt, **fkw))      # ss2tf(A, B, C, D, dt)
             else:
                 num, den = ct.tfdata(x)
-                st.append(ct.tf(num, den, x.dt))
+                st.append(ct.tf(num, den, x.dt, **fkw))
         elif k == "ssdata":
             x = st.pop()
             via = it[1] if len(it) > 1 else "ssdata"
+            fkw = kwargs_of(it[2]) if len(it) > 2 and it[2] is not None else {}
             if via == "tf2ss3" and isinstance(x, ct.TransferFunction):
-                st.append(ct.tf2ss(x.num, x.den, x.dt))             # tf2ss(num, den, dt)
+                st.append(ct.tf2ss(x.num, x.den, x.dt, **fkw))             # tf2ss(num, den, dt)
             else:
                 A, B, C, D = ct.ssdata(x)
-                st.append(ct.ss(A, B, C, D, x.dt))
+                st.append(ct.ss(A, B, C, D, x.dt, **fkw))
         elif k == "op":
             b = st.pop()
             a = st.pop()
@@ -782,7 +787,44 @@ class C03(Family):
         # structured (sparse) systems, the option remove_useless_states and the configuration history
         for i in range(260 if tier == "quick" else 9000):
             out.append({"prog": self.gen_structured(rng, maxlen)})
+        # factory forms with naming keywords (generated last: the earlier streams are unchanged per seed):
+        # ss2tf(A, B, C, D, dt, name=, inputs=, outputs=), tf(num, den, dt, ...), tf2ss(num, den, dt, ...),
+        # ss(A, B, C, D, dt, ...) on the data of a system, possibly followed by further conversions
+        for i in range(60 if tier == "quick" else 2400):
+            out.append({"prog": self.gen_factory(rng)})
         return out
+
+    def gen_factory(self, rng):
+        dt = rng.choice(DTS)
+        if rng.random() < 0.5:
+            shape = rng.choice([(1, 1), (1, 1), (2, 1), (1, 2), (2, 2), (2, 3)])
+            leaf = self.leaf_ss(rng, shape, dt, maxn=3)
+            cur_tf = False
+        else:
+            shape = (1, 1)
+            leaf = self.leaf_tf(rng, shape, dt)
+            cur_tf = True
+        p, m = shape
+        def kw():
+            k = [rng.choice(NAMES) if rng.random() < 0.5 else None,
+                 rng.sample(LABS, m) if rng.random() < 0.7 else None,
+                 rng.sample(LABS, p) if rng.random() < 0.7 else None]
+            return k
+        prog = [leaf]
+        for _ in range(rng.choice([1, 1, 2, 3])):
+            if cur_tf:
+                if shape == (1, 1) and rng.random() < 0.6:
+                    prog.append(["ssdata", rng.choice(["ssdata", "tf2ss3"]), kw()])
+                    cur_tf = False
+                else:
+                    prog.append(["tfdata", "tfdata", kw()])
+            else:
+                if rng.random() < 0.7:
+                    prog.append(["tfdata", rng.choice(["ss2tf4", "ss2tf4", "tfdata"]), kw()])
+                    cur_tf = True
+                else:
+                    prog.append(["ssdata", "ssdata", kw()])
+        return prog
 
     # ---- structured systems / remove_useless_states ----------------------------------
     def leaf_ss_sparse(self, rng, shape, dt, n=None):
